@@ -77,7 +77,8 @@ def effective_options(opts):
 
 def gen_apps(rng, specs, n_apps=(1, 3), n_progs=(1, 3), managed_p=0.85, max_numprocs=2, loads=(0, 30),
              seq_max=3, per_instance_diff=0.0, allow_wait_exit=False, distribution=None,
-             startsecs=(0, 4), stopwaitsecs=(1, 4), strategies=True, identifiers_p=0.3):
+             startsecs=(0, 4), stopwaitsecs=(1, 4), strategies=True, identifiers_p=0.3,
+             autorestart=('false', 'false', 'unexpected')):
     """ Returns (rules_model, groups_by_nick).
 
     rules_model = {app: {'managed': bool, 'start_sequence', 'stop_sequence', 'distribution', 'identifiers',
@@ -107,7 +108,7 @@ def gen_apps(rng, specs, n_apps=(1, 3), n_progs=(1, 3), managed_p=0.85, max_nump
             prog_name = f'{app_name}_p{p + 1}'
             prog = {'numprocs': rng.choice([1] * 3 + list(range(2, max_numprocs + 1))) if max_numprocs > 1 else 1,
                     'startsecs': rng.randint(*startsecs), 'stopwaitsecs': rng.randint(*stopwaitsecs),
-                    'startretries': rng.randint(0, 2), 'autorestart': rng.choice(['false', 'false', 'unexpected']),
+                    'startretries': rng.randint(0, 2), 'autorestart': rng.choice(list(autorestart)),
                     'exitcodes': '0'}
             if managed:
                 prog['start_sequence'] = rng.randint(0, seq_max)
